@@ -161,6 +161,8 @@ pub enum Act {
     CloneFrom(usize, usize),
     /// consumes the buffer (terminal)
     IntoIter(Script),
+    /// drops the buffer inside the call window (terminal)
+    DropBuf,
     // ---- observers
     Get(usize),
     NthFront(usize),
@@ -230,6 +232,7 @@ impl Act {
             },
             CloneFrom(..) => "clone_from",
             IntoIter(_) => "into_iter",
+            DropBuf => "drop_buffer",
             Get(_) => "get",
             NthFront(_) => "nth_front",
             NthBack(_) => "nth_back",
@@ -342,6 +345,7 @@ impl Act {
             "make_contiguous" => MakeContiguous,
             "clone_from" => CloneFrom(a(0)?, a(1)?),
             "into_iter" => IntoIter(sc()?),
+            "drop_buffer" => DropBuf,
             "get" => Get(a(0)?),
             "nth_front" => NthFront(a(0)?),
             "nth_back" => NthBack(a(0)?),
